@@ -69,6 +69,8 @@ def replay_mirror(stmts):
                 b._mark()
             else:
                 assert b.setshape(b.tensors[s["t"]], s["shape"]), s
+        elif k == "fail":
+            b.fail(s["kind"], b.tensors[s["t"]])
         elif k == "del":
             b.delete(s["names"])
         elif k == "backward":
